@@ -151,6 +151,98 @@ def do_fit(p):
         return {"o": "raise", "cls": type(ex).__name__, "msg": str(ex)[:160]}
 
 
+
+def _snapshot(prob):
+    """the problem's data as plain values: target data, weights, parameters of its processors"""
+    import copy
+    out = {"targets": np.array(prob.all_target_data, dtype=float).copy()}
+    out["weighting"] = None if prob.weighting is None else np.array(prob.weighting, dtype=float).copy()
+    wf = prob.weighting_from_file
+    out["weighting_from_file"] = None if wf is None else np.array(wf, dtype=float).copy()
+    vals = []
+    for proc in prob.param_processor_list:
+        for key in ("pipeline.charge_collection.pat.arguments.gain", "pipeline.charge_collection.pat.arguments.bias",
+                    "pipeline.charge_collection.pat.arguments.offset"):
+            vals.append(float(proc.get(key)))
+        try:       # the frame left in the processor's own detector, if any (reading an empty bucket raises)
+            vals.append(float(np.sum(np.nan_to_num(np.array(proc.detector.pixel.array, dtype=float)))))
+        except Exception:  # noqa: BLE001
+            vals.append(None)
+    out["processors"] = copy.deepcopy(vals)
+    return out
+
+
+def _same(a, b) -> bool:
+    for k in a:
+        x, y = a[k], b[k]
+        if (x is None) != (y is None):
+            return False
+        if x is None:
+            continue
+        if isinstance(x, list):
+            if x != y:
+                return False
+        elif x.shape != y.shape or not np.array_equal(x, y, equal_nan=True):
+            return False
+    return True
+
+
+def do_hist(p):
+    """a history of operations on ONE problem object"""
+    import copy
+    import logging
+    import pickle
+    logging.disable(logging.CRITICAL)
+    try:
+        prob, *_ = _problem(p, tag="h")
+    except Exception as ex:  # noqa: BLE001
+        return {"o": "ctor", "cls": type(ex).__name__, "msg": str(ex)[:160]}
+    try:
+        before = _snapshot(prob)
+    except Exception as ex:  # noqa: BLE001
+        return {"o": "snapshot_failed", "cls": type(ex).__name__, "msg": str(ex)[:160]}
+    obs = []
+    ncopy = 0
+    for op in p["ops"]:
+        kind = op["op"]
+        if kind == "nop":
+            which = op.get("which", 0) % 4
+            try:
+                if which == 0:
+                    prob.get_bounds()
+                elif which == 1:
+                    prob.convert_to_parameters(np.array([1.0, 0.5]))
+                elif which == 2:
+                    repr(prob)
+                else:
+                    copy.deepcopy(prob)
+                obs.append({"o": "nop"})
+            except Exception as ex:  # noqa: BLE001
+                obs.append({"o": "nop_raise", "cls": type(ex).__name__})
+            continue
+        x = np.array([float(op["gain"]), float(op["bias"])])
+        target = prob
+        if kind == "fit_copy":
+            ncopy += 1
+            try:
+                target = copy.deepcopy(prob) if ncopy % 2 else pickle.loads(pickle.dumps(prob))
+            except Exception as ex:  # noqa: BLE001
+                obs.append({"o": "copy_raise", "cls": type(ex).__name__, "msg": str(ex)[:160]})
+                continue
+        try:
+            with np.errstate(all="ignore"):
+                r = target.fitness(x)
+            assert len(r) == 1
+            obs.append(_val(r[0]))
+        except Exception as ex:  # noqa: BLE001
+            obs.append({"o": "raise", "cls": type(ex).__name__, "msg": str(ex)[:160]})
+    try:
+        same = _same(before, _snapshot(prob))
+    except Exception:  # noqa: BLE001
+        same = False
+    return {"o": "ok", "obs": obs, "same": same}
+
+
 def _np_fitness(ff, free, s, t, w):
     """independent numpy recomputation of the three figures of merit"""
     d = t - s
@@ -222,6 +314,31 @@ def do_calib(p):
             total += _np_fitness(p["ff"], p.get("free", 0), s, t, w)
         recomp.append(_ratio(total))
     out["reeval"], out["recomp"] = reeval, recomp
+    # every individual the result reports (the champion of every island after every evolution, every member of /best):
+    # the fitness attached to it vs. the fitness a FRESHLY built problem returns for its decision vector
+    try:
+        fresh, *_ = _problem(p, tag="f")
+        indiv = []
+        for i in range(fit.shape[0]):
+            for e in range(fit.shape[1]):
+                x = dec[i, e, :nparam] if dec.ndim == 3 else dec[i, :nparam]
+                with np.errstate(all="ignore"):
+                    indiv.append(dict(kind="champion", island=i, evolution=e, x=[float(v) for v in x],
+                                      reported=_val(fit[i, e]), fresh=_val(fresh.fitness(np.array(x))[0])))
+        if "best" in dt.children or "/best/fitness" in dt.groups or "best" in dt:
+            bf = dt["/best/fitness"].transpose("island", "evolution", "individual")
+            bd = dt["/best/decision"].transpose("island", "evolution", "individual", "param_id")
+            bfa, bda = np.asarray(bf.to_numpy(), dtype=float), np.asarray(bd.to_numpy(), dtype=float)
+            for i in range(bfa.shape[0]):
+                for e in range(bfa.shape[1]):
+                    for k in range(bfa.shape[2]):
+                        x = bda[i, e, k, :nparam]
+                        with np.errstate(all="ignore"):
+                            indiv.append(dict(kind="best", island=i, evolution=e, individual=k, x=[float(v) for v in x],
+                                              reported=_val(bfa[i, e, k]), fresh=_val(fresh.fitness(np.array(x))[0])))
+        out["indiv"] = indiv
+    except Exception as ex:  # noqa: BLE001
+        out["indiv_error"] = {"cls": type(ex).__name__, "msg": str(ex)[:200]}
     # the returned simulated data: computable?  equal to the formula?  reproduces the reported fitness?
     try:
         sim_ret = np.asarray(dt[f"/simulated/{p.get('bucket', 'pixel')}"].to_numpy(), dtype=float)
@@ -245,4 +362,4 @@ def do_calib(p):
 
 
 def handle(p):
-    return {"ck": do_ck, "ff": do_ff, "fit": do_fit, "calib": do_calib}[p["kind"]](p)
+    return {"ck": do_ck, "ff": do_ff, "fit": do_fit, "hist": do_hist, "calib": do_calib}[p["kind"]](p)
